@@ -21,7 +21,7 @@ LEVEL = "exploration"
 RULE = ("every parameter class x configuration (must_exist, valid_types of CSV and NetCDF reads, nested ListParameters, ResultParameter "
         "with/without output type and each is_fuzzy) x ~130 raw values of every kind the parser or API delivers x working directory in "
         "{None, absolute, relative, empty}; plus live contracts during random whole-model runs; distinct by (parameter config, raw value class, wd, outcome class)")
-REQUIRED_COUNTERS = ["clean_calls_judged", "contract_evaluations", "idempotence_checks", "purity_snapshots_compared", "live_double_clean_pairs"]
+REQUIRED_COUNTERS = ["clean_calls_judged", "contract_evaluations", "idempotence_checks", "purity_snapshots_compared", "live_double_clean_pairs", "live_argument_snapshots_compared"]
 ASSUMPTIONS = ["don't-care: what StringParameter makes of non-scalars, bool given to NumberParameter, ints other than 0/1 and numeric strings other than "
                "'0'/'1' given to BooleanParameter, 'nan'/'inf'/underscore literals, relative working directories", "NaN compared NaN-aware"]
 
@@ -92,6 +92,10 @@ def typed_ok(param, raw, result, program=None):
                 return "relative-path-not-resolved-against-working-dir"
         if isinstance(raw, str) and os.path.isabs(raw) and result != raw:
             return "absolute-path-changed"
+        if isinstance(raw, str) and raw and not os.path.isabs(raw) and wd and os.path.isabs(wd):
+            # ... and name the file the operating system finds under working_dir/raw ('..' after a symbolic link included)
+            if os.path.realpath(result) != os.path.realpath(os.path.join(wd, raw)):
+                return "relative-path-names-another-file"
         return None
     if isinstance(param, P.StringParameter):
         return None if isinstance(result, str) else "string-not-str"
@@ -250,6 +254,7 @@ def pool(program, d, with_arrays=False):
         "true", "TRUE", "True", "false", "False", "0", "1", "2", "yes", "no", "t",
         "Float", "Integer", "Positive Float", "Positive Integer", "Fuzzy", "float", "Complex",
         os.path.join(d, "in.csv"), os.path.join(d, "missing.csv"), "in.csv", "sub/in.csv", "missing.csv", "./in.csv", "../x.csv", d, "é.csv",
+        "link/../in.csv", "sub/../in.csv", "sub//in.csv", "link/../missing.csv",
         "A", "F", "U", "Nope", "a", "TupleRes", "NumRes", "TextRes", ["TupleRes", "NumRes"],
         [], [1, 2], [1.5, 2], [1, 1.0], [2.0, 2], [1, 1.0, True], [0, 0.0, False, "0"], ["1", 1, 1.0], [3, 3, 3.0, 3.0], [Argument("x", 1), Argument("x", 1.0)],
         "V", ["V"], ["A", "V"], program.commands["V"], [program.commands["V"], A], ["1", "2.5"], ["1", "x"], ["A", "F"], ["A", "A"], ["F"], ["A", "Nope"], [A, F], [A], [U], [[1], [2, 3]], [[1], 2], [[]], [["A"]],
@@ -293,7 +298,7 @@ def cases(ctx):
     ncfg = len(configs())
     idx = 0
     for ci in range(ncfg):
-        for wd in ("none", "abs", "rel", "empty"):
+        for wd in ("none", "abs", "rel", "empty", "abs-copied"):
             if ctx.mine(idx):
                 yield {"kind": "matrix", "config": ci, "wd": wd}
             idx += 1
@@ -308,7 +313,7 @@ def _world(ctx, wd):
     for f in ("in.csv", "sub/in.csv"):
         with open(os.path.join(d, f), "w") as fh:
             fh.write("X\n1\n2\n")
-    wdir = d if wd == "abs" else os.path.relpath(d) if wd == "rel" else "" if wd == "empty" else None
+    wdir = d if wd in ("abs", "abs-copied") else os.path.relpath(d) if wd == "rel" else "" if wd == "empty" else None
     program = arr.new_program(arr.CSV_LIBS + ("vprobe",), working_dir=wdir)
     arr.standin(program, "A", numpy.ma.array([1.0, 2.0, 3.0]), fuzzy=False)
     arr.standin(program, "F", numpy.ma.array([0.5, -0.5, 1.0]), fuzzy=True)
@@ -327,6 +332,20 @@ def _world(ctx, wd):
     loose = Command("Loose", [], program=None)
     loose.is_finished, loose._result = True, numpy.ma.array([1.0])
     program._foreign.append(loose)
+    # a directory reached through a symbolic link, with a file of the same name next to the link and beyond it
+    os.makedirs(os.path.join(d, "elsewhere", "deep"))
+    with open(os.path.join(d, "elsewhere", "in.csv"), "w") as fh:
+        fh.write("X\n7\n8\n")
+    try:
+        os.symlink(os.path.join(d, "elsewhere", "deep"), os.path.join(d, "link"))
+    except OSError:
+        pass
+    if wd == "abs-copied":
+        # the same world as a deep copy of the program (finished results and all) holds it
+        foreign = program._foreign
+        del program._foreign
+        program = copy.deepcopy(program)
+        program._foreign = foreign
     return program, d
 
 
@@ -339,7 +358,20 @@ def run_case(ctx, case):
     param = configs()[case["config"]]
     label = param_label(param)
     vals = pool(program, d, with_arrays=type(param) in (P.Parameter, P.DataParameter))
+    twin_outcomes = None
+    if case["wd"] == "abs-copied":
+        # what the very same cleanings give in the program that was copied
+        program0, d0 = _world(ctx, "abs")
+        twin_outcomes = []
+        for raw0 in pool(program0, d0, with_arrays=type(param) in (P.Parameter, P.DataParameter)):
+            try:
+                param.clean(raw0, program0, 7)
+                twin_outcomes.append("ok")
+            except Exception as e0:
+                twin_outcomes.append(type(e0).__name__)
+    vi = -1
     for raw in vals:
+        vi += 1
         vclass = value_class(raw)
         before_raw, before_prog = snap(raw), prog_snap(program)
         nviol = len(_rec["violations"])
@@ -350,6 +382,8 @@ def run_case(ctx, case):
             r1, o1 = e, type(e).__name__
         ctx.count("clean_calls_judged")
         ctx.feature((label, vclass, case["wd"], o1 if o1 == "ok" or isinstance(r1, ProgramError) else "raw:" + o1))
+        if twin_outcomes is not None and vi < len(twin_outcomes) and twin_outcomes[vi] != o1:
+            ctx.fail("%s:%s:copy-of-the-program-cleans-differently:%s-instead-of-%s" % (label, vclass, o1, twin_outcomes[vi]), {"raw": repr(raw)[:120]})
         # contract findings made during this call (typed / purity)
         for v in _rec["violations"][nviol:]:
             ctx.fail("%s:%s:%s" % (label, vclass, v[0]), {"raw": repr(raw)[:120], "detail": [repr(x)[:200] for x in v[2:]]},
@@ -369,7 +403,7 @@ def run_case(ctx, case):
         if bad:
             ctx.fail("%s:%s:typed:%s" % (label, vclass, bad), {"raw": repr(raw)[:120], "result": repr(r1)[:120], "wd": case["wd"]})
             continue
-        if isinstance(param, P.PathParameter) and case["wd"] == "abs" and not os.path.isabs(r1):
+        if isinstance(param, P.PathParameter) and case["wd"] in ("abs", "abs-copied") and not os.path.isabs(r1):
             ctx.fail("%s:%s:path-not-absolute" % (label, vclass), {"raw": repr(raw)[:120], "result": r1})
         # repeat and idempotence
         ctx.count("idempotence_checks")
@@ -379,7 +413,7 @@ def run_case(ctx, case):
                 ctx.fail("%s:%s:second-clean-differs" % (label, vclass), {"raw": repr(raw)[:120], "first": repr(r1)[:120], "second": repr(r2)[:120]})
         except Exception as e:
             ctx.fail("%s:%s:second-clean-raises-%s" % (label, vclass, type(e).__name__), {"raw": repr(raw)[:120]})
-        if isinstance(param, P.PathParameter) and case["wd"] != "abs" and not os.path.isabs(r1):
+        if isinstance(param, P.PathParameter) and case["wd"] not in ("abs", "abs-copied") and not os.path.isabs(r1):
             continue
         if isinstance(param, P.StringParameter) and not isinstance(raw, (str, int, float)) and type(param) is P.StringParameter:
             pass
@@ -422,7 +456,18 @@ def run_live(ctx, case):
         else:
             text, _ = models.to_text(model)
             prog = Program.from_source(text, working_dir=d)
-        prog.run()
+        raw_before = [(n, [snap(a) for a in c.arguments]) for n, c in prog.commands.items()]
+        text_before = prog.to_string()
+        try:
+            prog.run()
+        finally:
+            ctx.count("live_argument_snapshots_compared")
+            raw_after = [(n, [snap(a) for a in c.arguments]) for n, c in prog.commands.items()]
+            if raw_after != raw_before:
+                changed = [n for (n, a), (_, b) in zip(raw_before, raw_after) if a != b]
+                ctx.fail("live:running-the-program-alters-its-raw-arguments", {"commands": changed[:5], "example": [repr(x)[:200] for x in [a for (n, a) in raw_before if n in changed][:1] + [b for (n, b) in raw_after if n in changed][:1]]})
+            elif prog.to_string() != text_before:
+                ctx.fail("live:running-the-program-alters-its-serialised-form", {})
     except Exception as e:
         ctx.dontcare("live model raised %s" % type(e).__name__)
     ctx.feature(("live", case.get("api", False), tuple(sorted(set(c["cmd"] for c in model["commands"])))[:5]))
